@@ -7,6 +7,8 @@ Open Scope Z_scope.
 
 Record panel := { p_w : Z; p_h : Z; p_ox : Z; p_oy : Z }.   (* configured window, native orientation *)
 
+Definition panel_of (o : opts) : panel := {| p_w := o_w o; p_h := o_h o; p_ox := o_ox o; p_oy := o_oy o |}.
+
 Definition lw_of (p : panel) (o : orient) : Z := match rotn o with D0 | D180 => p_w p | _ => p_h p end.
 Definition lh_of (p : panel) (o : orient) : Z := match rotn o with D0 | D180 => p_h p | _ => p_w p end.
 
